@@ -319,8 +319,12 @@ def c12_corr(res, exe, driver, tier, seed, tmp):
             continue
         F, E = final[2], final[1]
         ks = list(range(4, len(F) + 1))
-        if tier != "thorough" and len(ks) > 40:
-            ks = sorted(rng.sample(ks[:-1], 39)) + [len(F)]
+        cap = 400 if tier == "thorough" else 40
+        if len(ks) > cap:
+            # (files with an entry beyond 4096 bytes: every cut of them is too many for the model's unary arithmetic; the cuts
+            # around the 4096-byte offset are always among the sample)
+            near = [k for k in ks[:-1] if 4090 <= k <= 4104][:12]
+            ks = sorted(set(rng.sample(ks[:-1], cap - 1 - len(near)) + near)) + [len(F)]
         whole = {"E": None}   # the file's logical content = what loading all of it gives (tied to the writer by C10)
         for k in reversed(ks):
             c = "put %s ; new 5 %s ; load 5" % (encb(F[:k]), cfg)
